@@ -51,6 +51,10 @@ pub struct Corpus {
     pub finite: Vec<Entry>,
     /// generated family, n <= 4 (committed list)
     pub g: Vec<Entry>,
+    /// members of G with finite group and a manifold universal cover
+    pub finite_small: Vec<Entry>,
+    /// (symbol, word): closed manifolds with non-trivial finite fundamental group
+    pub manifold_covers: Vec<(Entry, Vec<isize>)>,
 }
 
 impl Corpus {
@@ -60,7 +64,24 @@ impl Corpus {
         let finite = load_list(&root.join("known_finite.txt"), "F")?;
         let mut g = load_list(&root.join("G4.txt"), "G")?;
         g.retain(|e| Sym::parse(&e.text).map(|s| s.n <= max_g_size).unwrap_or(false));
-        Ok(Corpus { k0, finite, g })
+        let finite_small = load_list(&root.join("finite_small.txt"), "S")?;
+        let mut manifold_covers = vec![];
+        let path = root.join("finite_manifold_covers.txt");
+        let content = std::fs::read_to_string(&path).map_err(|e| format!("{}: {}", path.display(), e))?;
+        for line in content.lines() {
+            if line.starts_with('#') || line.trim().is_empty() {
+                continue;
+            }
+            let parts: Vec<&str> = line.split('\t').collect();
+            if parts.len() < 2 {
+                continue;
+            }
+            let s = Sym::parse(parts[0]).map_err(|e| format!("{}: {}", path.display(), e))?;
+            let word: Vec<isize> = parts[1].split_whitespace().filter_map(|x| x.parse().ok()).collect();
+            let id = format!("M{}", manifold_covers.len());
+            manifold_covers.push((Entry { id, text: s.to_text(), provenance: parts[2..].join(" ") }, word));
+        }
+        Ok(Corpus { k0, finite, g, finite_small, manifold_covers })
     }
 }
 
